@@ -14,7 +14,7 @@ DOC_RE = re.compile(r"\[ref: ([0-9]{1,10})\]")
 NSTMT = 40
 
 PRELUDE = r'''#![allow(unused, dead_code)]
-use log::{debug, error, info, trace, warn, Level, Log, Metadata, Record};
+use log::{debug, error, info, log, trace, warn, Level, Log, Metadata, Record};
 use std::io::Write;
 
 #[derive(Debug, Clone, Copy)]
@@ -54,7 +54,17 @@ FEATS = {
     "path": ["bare", "qual"], "level": ["info", "warn", "error"], "target": ["none", "plain", "colons", "slashes", "escq", "blockopen", "expr_const", "expr_macro", "expr_concat", "expr_format"],
     "nkv": [0, 1, 2, 3], "kv0": KV_SHAPES, "msg": MSG_SHAPES, "lay": ["tight", "space", "nl", "nl0", "blockc", "linec"],
     "directive": ["none", "none", "none", "ignore", "no-kvp"], "trailcomma": [False, True],
+    "bang": ["tight", "tight", "tight", "sp", "nl", "cm", "sp_after"],
 }
+# statements of the log crate that lie outside the canonical space (the general log! macro with an explicit level; `log` itself is
+# one of the configured macro names): the tool may leave them alone or edit them, but the program must keep compiling and
+# every record must be unchanged or carry exactly the added reference
+NEAR = [
+    'log!(Level::Info, "NG%d level first {}", x)', 'log!(target: "t", Level::Warn, "NG%d target then level")',
+    'log::log!(log::Level::Error, user; "NG%d level then shorthand key")', 'log!(Level::Info, a = 1, b = val; "NG%d level then keys")',
+    'log!(\n        Level::Warn,\n        "NG%d multi-line {}",\n        n\n    )', 'log!(target: TARGET_NAME, Level::Error, k = x; "NG%d const target, level, key")',
+]
+C09_MACROS = [("log", "info"), ("log", "warn"), ("log", "error"), ("log", "log")]
 KEYS = ["a", "b", "user_id", "k9", "_x", "count", "r", "reference", "refx"]
 
 
@@ -107,7 +117,8 @@ def build_program(rows, seed, structured):
         marker = "P%d" % i
         L = lambda: gen.lay(f["lay"], rnd, "\n", indent="        ")
         macro = f["level"] if f["path"] == "bare" else "log::" + f["level"]
-        parts = [macro, "!(", L()]
+        bang = f.get("bang", "tight")
+        parts = [macro, {"sp": " ", "nl": "\n        ", "cm": " /* lvl */ "}.get(bang, ""), "!", " " if bang == "sp_after" else "", "(", L()]
         if f["target"] != "none":
             if f["target"].startswith("expr_"):
                 te = {"expr_const": "TARGET_NAME", "expr_macro": "module_path!()", "expr_concat": 'concat!(module_path!(), "::net")',
@@ -152,6 +163,11 @@ def build_program(rows, seed, structured):
         if f["target"].startswith("expr_") and effect != "none":
             effect = "either:" + effect     # outside the canonical (string-target) space: untouched or faithfully edited
         meta.append({"marker": marker, "stmt": stmt, "effect": effect, "feat": f})
+    for j, t in enumerate(rnd.sample(NEAR, 3)):
+        i = len(rows) + j
+        out.append("fn s%d() {\n%s    %s;\n}\n" % (i, LOCALS, t % i))
+        calls.append("    s%d();" % i)
+        meta.append({"marker": "NG%d" % i, "stmt": t % i, "effect": "either:" + ("kv" if structured else "msg"), "feat": {"near": j}})
     out.append("fn main() {\n    log::set_logger(&RECORDER).unwrap();\n    log::set_max_level(log::LevelFilter::Trace);\n" + "\n".join(calls) + "\n}\n")
     return "\n".join(out), meta
 
@@ -185,16 +201,32 @@ def compile_run(src_path, out_path):
     return recs, p.stderr.decode("utf-8", "replace")
 
 
-def run_program(built, rows, seed, structured):
-    """-> dict(before recs, after recs, compile errors, meta, edit rec)"""
+def run_program(built, rows, seed, structured, perturb=None):
+    """-> dict(before recs, after recs, compile errors, meta, edit rec)
+    perturb: None | "short-all" (every write(2) transfers part of what was asked: must be absorbed) | ("partial", fraction)
+    (one write to the scratch file stores a prefix, the write of the remainder fails with ENOSPC, later operations succeed)"""
     src, meta = build_program(rows, seed, structured)
     with core.Box(tag="c09") as box:
         box.write("src/main.rs", src)
-        cfg = box.write("Breadlog.yaml", core.make_config(structured=True if structured else None, use_cache=False))
+        cfgtext = core.make_config(structured=True if structured else None, use_cache=False, macros=C09_MACROS)
+        cfg = box.write("Breadlog.yaml", cfgtext)
         before, err0 = compile_run(os.path.join(box.proj, "src/main.rs"), os.path.join(box.root, "before.bin"))
         if before is None:
             return {"gen_error": err0, "meta": meta, "src": src}
-        ed = core.run_breadlog(built, box, cfg)
+        rules = None
+        if perturb == "short-all":
+            rules = "kind=write,act=short"
+        elif perturb:
+            from .. import fault
+            with core.Box(tag="c09d") as dry:
+                dry.write("src/main.rs", src)
+                dcfg = dry.write("Breadlog.yaml", cfgtext)
+                d = core.run_breadlog(built, dry, dcfg, shim=True)
+            ws = [o["n"] for o in (d.shim or []) if fault.phase_of(o) == "tmp-write" and o["bytes"] > 1]
+            if ws:
+                k = ws[min(len(ws) - 1, int(perturb[1] * len(ws)))]
+                rules = "n=%d,act=short;n=%d,act=errno:28" % (k, k + 1)
+        ed = core.run_breadlog(built, box, cfg, rules=rules, shim=bool(rules))
         after_src = box.read("src/main.rs").decode("utf-8", "replace")
         after, err1 = compile_run(os.path.join(box.proj, "src/main.rs"), os.path.join(box.root, "after.bin"))
     return {"before": before, "after": after, "err": err1, "meta": meta, "edit": ed, "src": src, "after_src": after_src}
@@ -248,10 +280,32 @@ def compare(r, structured):
 def work(job):
     built, seed, pi, rows, structured = job
     res = {"evaluations": 1, "nontrivial": [], "violations": [], "samples": [], "inconclusive": {}, "counters": {}}
-    r = run_program(built, rows, "%d-%d" % (seed, pi), structured)
+    pr = core.rng_for("c09perturb", seed, pi)
+    x = pr.random()
+    perturb = "short-all" if x < 0.12 else (("partial", pr.random()) if x < 0.3 else None)
+    r = run_program(built, rows, "%d-%d" % (seed, pi), structured, perturb)
     if "gen_error" in r:
         # the *generated* program does not compile: harness problem, bisect to drop offending generator rows
         res["inconclusive"]["generated program does not compile (generator bug): " + r["gen_error"].strip().splitlines()[0][:120]] = 1
+        return res
+    res["counters"]["edit_run_%s" % (perturb if isinstance(perturb, str) else ("partial-write-failure" if perturb else "undisturbed"))] = 1
+    if isinstance(perturb, tuple):
+        # the edit run may legitimately fail and leave the program as it was: every statement is then either untouched or
+        # faithfully edited - but the program on disk must compile and behave as before in any case
+        if r["edit"].panicked():
+            res["inconclusive"]["edit run crashed (%s)" % r["edit"].ended()] = 1
+            return res
+        for m in r["meta"]:
+            if not m["effect"].startswith("either:") and m["effect"] != "none" and r["edit"].rc != 0:
+                m["effect"] = "either:" + m["effect"]
+        v = compare(r, structured)
+        res["counters"]["programs"] = 1
+        res["counters"]["records_compared"] = len(r["before"])
+        for clause, i, detail in v:
+            res["violations"].append({"signature": "C09.%s|%s|edit-run-with-partial-write-failure" % (clause, "structured" if structured else "unstructured"),
+                                      "detail": dict(detail, edit_exit=r["edit"].ended(), after_source_excerpt=r["after_src"][:300]),
+                                      "case": {"rows": rows, "structured": structured, "perturb": list(perturb), "seedtag": "%d-%d" % (seed, pi)}})
+            break
         return res
     if r["edit"].panicked() or r["edit"].rc != 0:
         res["inconclusive"]["edit run failed/crashed (%s)" % r["edit"].ended()] = 1
@@ -305,12 +359,12 @@ def work(job):
                                       "case": {"rows": cur, "structured": structured}})
         return res
     for clause, i, detail in v:
-        row = rows[i] if i is not None else {}
+        row = rows[i] if (i is not None and i < len(rows)) else {}
         nn = {k: row.get(k) for k in ("target", "nkv", "lay", "directive", "msg") if row.get(k) not in ("none", 0, "tight", "plain", None)}
         res["violations"].append({"signature": "C09.%s|%s|%s" % (clause, "structured" if structured else "unstructured",
                                                                 ",".join("%s=%s" % kv for kv in sorted(nn.items()))),
                                   "detail": dict(detail, statement=(r["meta"][i]["stmt"] if i is not None else None)),
-                                  "case": {"rows": [row] if i is not None else rows, "structured": structured}})
+                                  "case": {"rows": [row] if (i is not None and i < len(rows)) else rows, "structured": structured}})
     if pi < 2:
         k = 0
         res["samples"].append({"structured": structured, "statement": r["meta"][k]["stmt"], "effect": r["meta"][k]["effect"],
@@ -324,7 +378,7 @@ def main(tier):
     ensure_rlib()
     ck.built = built
     rnd = core.rng_for("c09", ck.seed, tier)
-    nprog = 120 if tier == "quick" else 1200
+    nprog = 240 if tier == "quick" else 2400
     rows = list(gen.covering_rows(FEATS, 2, rnd, candidates=10))
     while len(rows) < nprog * NSTMT:
         rows.append({k: rnd.choice(v) for k, v in FEATS.items()})
@@ -352,7 +406,12 @@ def replay_witness(w, ck=None, built=None):
     built = built or (ck.built if ck else None) or core.build_repo()
     ensure_rlib()
     c = w["case"] if "case" in w else w["first"]["case"]
-    r = run_program(built, c["rows"], "replay", c["structured"])
+    pt = c.get("perturb")
+    r = run_program(built, c["rows"], c.get("seedtag", "replay"), c["structured"], tuple(pt) if pt else None)
+    if pt and r.get("edit") is not None and r["edit"].rc != 0:
+        for m in r["meta"]:
+            if not m["effect"].startswith("either:") and m["effect"] != "none":
+                m["effect"] = "either:" + m["effect"]
     if "gen_error" in r:
         return False
     return bool(compare(r, c["structured"]))
